@@ -12,7 +12,7 @@ CONSTANTS
   Writers = {"w1"}
   MaxLen = 3
   MaxId = 1000
-  ChanSets = {{"I","D","V"}}
+  ChanSets = {{"I","D","V"}, {"I"}, {"D","V"}}
   EarlyStart = FALSE
 INVARIANTS SamplesInDomains DomainsDisjoint DataHasIndex NoUncommittedVisible
 CONSTRAINT HW
@@ -46,7 +46,7 @@ def validate(ctx, events, tag):
 
 def run(ctx):
     thorough = ctx.tier == "thorough"
-    plan = [(1, 6), (2, 6), (4, 8), (16, 10)] if not thorough else [(1, 40), (2, 60), (4, 80), (8, 80), (16, 120)]
+    plan = [(1, 6), (2, 8), (4, 10), (16, 12)] if not thorough else [(1, 40), (2, 60), (4, 80), (8, 80), (16, 120)]
     total_rounds = total_events = tstates = ttrans = 0
     samples = []
     for gmp, rounds in plan:
